@@ -286,7 +286,6 @@ func C10(p *ir.Program, r *report.R) {
 
 var _ = report.Discharged
 
-
 // c10NodeType names the trie node struct a value (or pointer) denotes, or "".
 func c10NodeType(t types.Type) string {
 	if pt, ok := t.Underlying().(*types.Pointer); ok {
